@@ -235,6 +235,11 @@ def run_case(case):
     else:
         Xa, _ = P.apply_panel(4, 2, nc, L, fam)
 
+    if case["est"] == "Plateau":
+        # plateaus of exactly 0.0 so that the finder has something instance specific to find
+        X = [[[max(v, 0.0) for v in col] for col in x] for x in X]
+        Xa = [[[max(v, 0.0) for v in col] for col in x] for x in Xa]
+
     # reference: nested at fit, nested at apply, natural order
     ref_est = _build(case)
     o = call(lambda: ref_est.fit(P.container(X, "nested", naming), y))
